@@ -25,6 +25,7 @@ def run(ctx):
     fingerprint.check(ctx, "packages/core/quri_parts/core/measurement/bitwise_commuting_pauli.py",
                       ["bitwise_pauli_reconstructor_factory", "bitwise_commuting_pauli_measurement",
                        "individual_pauli_measurement"])
+    fingerprint.check(ctx, "packages/core/quri_parts/core/utils/bit.py", ["parity_sign_of_bits"])
     fingerprint.check(ctx, "packages/core/quri_parts/core/measurement/__init__.py", ["CachedMeasurementFactory.__call__"])
     ctx.coq(["measrot.v"], ["C07.v"])
     ctx.harness("corr_C07.py", kind="corr")
